@@ -86,13 +86,18 @@ def tree_dir():
     return d
 
 
-def _prune(keep=3):
-    """Keep the `keep` most recently used tree directories."""
+def _prune(keep=3, min_age=2 * 3600):
+    """Keep the `keep` most recently used tree directories, and never remove one that was used within the last
+    `min_age` seconds: another check (of this or of another tree) may still be running from it."""
+    import time
     try:
         ds = [os.path.join(C.CACHE, x) for x in os.listdir(C.CACHE)]
         ds = [d for d in ds if os.path.isdir(d) and re.fullmatch(r"[0-9a-f]{16}", os.path.basename(d))]
         ds.sort(key=lambda d: os.path.getmtime(d), reverse=True)
+        now = time.time()
         for d in ds[keep:]:
+            if now - os.path.getmtime(d) < min_age:
+                continue
             shutil.rmtree(d, ignore_errors=True)
     except OSError:
         pass
